@@ -507,6 +507,9 @@ func (p *Packet) MarshalTo(buf []byte) (n int, err error) {
 	m := copy(buf[n:], p.Payload)
 
 	if p.Header.Padding {
+		for i := 0; i < int(p.PaddingSize)-1; i++ {
+			buf[n+m+i] = 0
+		}
 		buf[n+m+int(p.PaddingSize-1)] = p.PaddingSize
 	}
 
